@@ -123,8 +123,8 @@ CHECKS.update({
         '(iff at levels 2-3), full regular-vine property for centre and direct vines and for regular vines up to the default truncation 3, a proved-sound executable validator, plus limits found by the proofs '
         '(escape branch diverges, NaN breaks greediness). Tie: the real Tree classes are driven with synthetic tau matrices (exhaustive rank orderings for d<=4 in thorough) with numpy/set orders replayed, and real '
         'VineCopula.fit outputs are replayed and validated by vm_compute; every edge copula is what select_copula returned and admissible.',
-   note=TB + 'Model.Vine is hand-written (correspondence); numpy argsort tie order and Python set order are replayed as recorded data; general proximity beyond tree 3 and no-pair-twice for regular vines are only validated per run, not proved.',
-   technique='Coq proof over hand-written graph-construction model; replayed vm_compute correspondence + proved-sound validator on implementation output',
+   note=TB + 'Model.Vine is hand-written except its edge kernel (check_constraint, identify_eds_ing, is_adjacent, sort_edge, get_child_edge, get_constraints: generated from the AST by tools/vf/vinegen.py and proved equal, C16_bridge_*; denotations of Python sets in coq/Lib/PySet.v) (correspondence); numpy argsort tie order and Python set order are replayed as recorded data; general proximity beyond tree 3 and no-pair-twice for regular vines are only validated per run, not proved.',
+   technique='Coq proof over hand-written graph-construction model; replayed vm_compute correspondence + proved-sound validator on implementation output; edge kernel generated from the AST with bridge theorems',
    ref='DESIGN.md section 7, C16'),
 })
 CHECKS.update({
@@ -168,8 +168,8 @@ CHECKS.update({
         'provenance F(L|D), F(R|D) proved for trees 1-2 of every vine, for every centre vine and for all hereditarily-good edges, REFUTED with witnesses from tree 3 on for direct/regular vines; likelihood = sum of log pair densities and a function of (model,u) when every read is defined (def-before-use refuted in the bad case); '
         'the sampler assigns every variable exactly once (DFS over a connected tree), sample shape, two-column reduction with the documented top-1% collapse, clipping strictly inside (0,1) with generated constants. '
         'PARTIAL: reproduction of marginals/tau within sampling error is statistical (search only).',
-   note=TB + 'Model.VineData is hand-written (correspondence by content-tagged arrays on the real classes); select_copula and h are symbolic oracles.',
-   technique='Coq proof over hand-written symbolic data-flow model; tag-based vm_compute correspondence; generated clip constants with bridges',
+   note=TB + 'Model.VineData is hand-written except the selection rule of get_conditional_uni (generated, C17_bridge_get_conditional_uni) (correspondence by content-tagged arrays on the real classes); select_copula and h are symbolic oracles.',
+   technique='Coq proof over hand-written symbolic data-flow model; tag-based vm_compute correspondence; generated clip constants and generated get_conditional_uni with bridges',
    ref='DESIGN.md section 7, C17'),
 })
 CHECKS.update({
